@@ -15,7 +15,7 @@ TABLES = {
     "notallowed": [("/a/{x}", ["POST"]), ("/a/{x:dig}", ["PUT"]), ("/{x}/{y}", ["DELETE"]), ("/*", ALL9), ("/a/{x}/b", ["GET"])],
 }
 REQUESTS = [("GET", "/a/1"), ("GET", "/a/a"), ("POST", "/a/1"), ("HEAD", "/a/1"), ("GET", "/1/a"), ("DELETE", "/a/a"),
-            ("GET", "/a"), ("OPTIONS", "/a/1"), ("HEAD", "/a"), ("PUT", "/a/1")]
+            ("GET", "/a"), ("OPTIONS", "/a/1"), ("HEAD", "/a"), ("PUT", "/a/1"), ("HEAD", "/a/a")]
 DEV = dict(D_IrregularOverwrite=False, D_QuotedStart=False, D_VarlessOptionalIrregular=False, D_EmptyCheckBeforeTrim=False,
            D_InterceptRaw=False, D_FallbackBeforeHead=False, D_AllowProbeHeadFallback=False,
            D_CacheKeyFirstSegment=False, D_CacheKeyNoMethod=False, D_CacheSkipsStable=False,
@@ -51,7 +51,8 @@ def explore(chk):
     caps = [0, 1, 2, 3] if thorough else [0, 1, 2]
     opt = ["TT", "TF", "FT", "FF"] if thorough else ["TT", "FF"]
     with open(out, "w") as fo:
-        fo.write(json.dumps(dict(hdr=1, tables={n: [[P.to_rux(p), ms] for p, ms in rows] for n, rows in TABLES.items()})) + "\n")
+        fo.write(json.dumps(dict(hdr=1, tables={n: [[P.to_rux(p), ms] for p, ms in rows] for n, rows in TABLES.items()},
+                                 alphabet=[[m, p] for m, p in REQUESTS])) + "\n")
 
         def cb(o):
             fo.write(json.dumps(o, separators=(",", ":")))
